@@ -4,6 +4,7 @@ Only property theorems and non-vacuity examples live here; helper lemmas are in
 `GT.Lemmas.Charts`.  Model: `GT.Model.Charts`.
 -/
 import GT.Lemmas.Charts
+import GT.Lemmas.Triangle
 import Mathlib.Analysis.SpecialFunctions.Arcosh
 import Mathlib.Analysis.SpecialFunctions.Sqrt
 import Mathlib.Tactic.NormNum
@@ -219,6 +220,75 @@ theorem metric_poincare (hr : IsSqrt r) (p q : Fin n → K) (hp : nsq p < 1) (hq
   have h4 : (1 - nsq q) ≠ 0 := by linarith
   field_simp
 
+theorem dot_init_last (h g : Fin (n + 1) → K) :
+    dot h g = dot (Fin.init h) (Fin.init g) + h (Fin.last n) * g (Fin.last n) := by
+  unfold dot; rw [Fin.sum_univ_castSucc]; rfl
+
+theorem dot_zero_tail (p q : Fin (n + 1) → K) :
+    dot p q = p 0 * q 0 + dot (Fin.tail p) (Fin.tail q) := by
+  unfold dot; rw [Fin.sum_univ_succ]; rfl
+
+/-- half-space model: `cosh d = 1 + |x−y|² / (2 xₙ yₙ)` equals the library's value -/
+theorem metric_halfspace (hr : IsSqrt r) (h g : Fin (n + 1) → K)
+    (hh : 0 < h (Fin.last n)) (hg : 0 < g (Fin.last n)) :
+    coshDist r (setHalfspace h) (setHalfspace g)
+      = 1 + nsq (fun i => h i - g i) / (2 * h (Fin.last n) * g (Fin.last n)) := by
+  -- scalar data of the two points
+  set yh := h (Fin.last n) with hyh
+  set yg := g (Fin.last n) with hyg
+  set xh := nsq (Fin.init h) with hxh
+  set xg := nsq (Fin.init g) with hxg
+  set c := dot (Fin.init h) (Fin.init g) with hc
+  have hxh0 : 0 ≤ xh := nsq_nonneg _
+  have hxg0 : 0 ≤ xg := nsq_nonneg _
+  have hDh : 0 < xh + (yh + 1) * (yh + 1) := by nlinarith
+  have hDg : 0 < xg + (yg + 1) * (yg + 1) := by nlinarith
+  -- components of the Poincaré images
+  have tl : ∀ (f : Fin (n + 1) → K), Fin.tail (h2p f)
+      = fun i => Fin.init f i * (-2 / (nsq (Fin.init f) + (f (Fin.last n) + 1) * (f (Fin.last n) + 1))) := by
+    intro f; unfold h2p; simp only [Fin.tail_cons]; funext i; ring
+  have hd : ∀ (f : Fin (n + 1) → K), h2p f 0
+      = (nsq (Fin.init f) + f (Fin.last n) * f (Fin.last n) - 1)
+        / (nsq (Fin.init f) + (f (Fin.last n) + 1) * (f (Fin.last n) + 1)) := by
+    intro f; unfold h2p; simp only [Fin.cons_zero]
+  have nh : nsq (h2p h) = ((xh + yh * yh - 1) ^ 2 + 4 * xh) / (xh + (yh + 1) * (yh + 1)) ^ 2 := by
+    unfold nsq; rw [dot_zero_tail, tl h, hd h, dot_smul_left, dot_smul_right]
+    show _ + _ * (_ * nsq (Fin.init h)) = _
+    rw [← hxh, ← hyh]; field_simp; ring
+  have ng : nsq (h2p g) = ((xg + yg * yg - 1) ^ 2 + 4 * xg) / (xg + (yg + 1) * (yg + 1)) ^ 2 := by
+    unfold nsq; rw [dot_zero_tail, tl g, hd g, dot_smul_left, dot_smul_right]
+    show _ + _ * (_ * nsq (Fin.init g)) = _
+    rw [← hxg, ← hyg]; field_simp; ring
+  have dhg : dot (h2p h) (h2p g)
+      = ((xh + yh * yh - 1) * (xg + yg * yg - 1) + 4 * c)
+        / ((xh + (yh + 1) * (yh + 1)) * (xg + (yg + 1) * (yg + 1))) := by
+    rw [dot_zero_tail, tl h, tl g, hd h, hd g, dot_smul_left, dot_smul_right,
+      ← hxh, ← hyh, ← hxg, ← hyg, ← hc]
+    field_simp; ring
+  have e1 : 1 - nsq (h2p h) = 4 * yh / (xh + (yh + 1) * (yh + 1)) := by
+    rw [nh]; field_simp; ring
+  have e2 : 1 - nsq (h2p g) = 4 * yg / (xg + (yg + 1) * (yg + 1)) := by
+    rw [ng]; field_simp; ring
+  have hp : nsq (h2p h) < 1 := by
+    have : 0 < 4 * yh / (xh + (yh + 1) * (yh + 1)) := by positivity
+    linarith
+  have hq : nsq (h2p g) < 1 := by
+    have : 0 < 4 * yg / (xg + (yg + 1) * (yg + 1)) := by positivity
+    linarith
+  have hdiff : nsq (fun i => h i - g i) = xh + yh * yh - 2 * (c + yh * yg) + (xg + yg * yg) := by
+    rw [nsq_sub]
+    unfold nsq
+    rw [dot_init_last h h, dot_init_last g g, dot_init_last h g]
+    rfl
+  unfold setHalfspace
+  have := metric_poincare hr (h2p h) (h2p g) hp hq
+  unfold setPoincare at this
+  rw [this, nsq_sub, e1, e2, nh, ng, dhg, hdiff]
+  have h1 := hh.ne'
+  have h2 := hg.ne'
+  field_simp
+  ring
+
 end generic
 
 /-! ## the reported distance over ℝ: `arccosh` of the (clamped) normalised product -/
@@ -274,6 +344,27 @@ theorem hdist_smul (x y : Fin (n + 1) → ℝ) (a b : ℝ) (ha : a ≠ 0) (hb : 
   have := abs_pos.2 ha
   have := abs_pos.2 hb
   field_simp
+
+/-- triangle inequality for the reported distance on interior points, every dimension -/
+theorem dist_triangle (x y z : Fin (n + 1) → ℝ)
+    (hx : mink x x < 0) (hy : mink y y < 0) (hz : mink z z < 0) :
+    hdist x z ≤ hdist x y + hdist y z := by
+  have ha := one_le_coshDist isSqrt_real x y hx hy
+  have hc := one_le_coshDist isSqrt_real y z hy hz
+  have hb := one_le_coshDist isSqrt_real x z hx hz
+  have key := coshDist_triangle x y z hx hy hz
+  unfold hdist
+  rw [clamp_noop x z hx hz, clamp_noop x y hx hy, clamp_noop y z hy hz]
+  set a := coshDist Real.sqrt x y
+  set c := coshDist Real.sqrt y z
+  set b := coshDist Real.sqrt x z
+  have hα := Real.arcosh_nonneg ha
+  have hγ := Real.arcosh_nonneg hc
+  have hcosh : Real.cosh (Real.arcosh a + Real.arcosh c) = a * c + Real.sqrt (a ^ 2 - 1) * Real.sqrt (c ^ 2 - 1) := by
+    rw [Real.cosh_add, Real.cosh_arcosh ha, Real.cosh_arcosh hc, Real.sinh_arcosh ha, Real.sinh_arcosh hc]
+  calc Real.arcosh b ≤ Real.arcosh (Real.cosh (Real.arcosh a + Real.arcosh c)) := by
+        rw [Real.arcosh_le_arcosh (by linarith) (Real.cosh_pos _), hcosh]; exact key
+    _ = Real.arcosh a + Real.arcosh c := Real.arcosh_cosh (by linarith)
 
 end real
 
